@@ -91,6 +91,20 @@ prop('C19', True, "Lean model of the helper loop and of is_failed() on an intege
      "Timing assumption (stated in the theorem): a round overshoots its sleep by less than Delta; a refresh racing the helper's own SIGKILL is not modelled; getppid()/kill() semantics trusted.",
      "Lean 4 proof (invariant over rounds, linear arithmetic) + kernel-checked extracted constants/traces + simulated-clock correspondence + real helper process")
 
+prop('C06', True, "Lean model of the file store with its pack (loose files, in-memory pack, pack file; dump/load/can_load/remove/remove_many/list/pack/close+reopen/cleanup) and refinement proof to a plain map: "
+     "step_refines (same answer, abstraction commutes, well-formedness kept) and store_refines_map (any history, by induction), list_nodup, reopen_id, pack_id. Correspondence: random histories x a generated value universe "
+     "x file / file+compression / in-memory / in-memory with backing file / redis-protocol backends answer exactly like the compiled model and like a Python dict (values compared by type and content); a stale-client family covers "
+     "keys present both packed and loose.",
+     "Modelled, not verified: pickle, zlib, NumPy .npy I/O (their round trip on the value universe is sampled by the correspondence); array byte order is normalised in comparisons (NumPy's own pickling does that); "
+     "single store object per history (two-object interleavings only in the stale-client family).",
+     "Lean 4 proof (refinement to an abstract map by induction over histories) + differential correspondence on real stores")
+prop('C10', True, "Theorems on the store model with locks and temp files: cleanup_results / needed_kept / unneeded_removed (default and --keep-locks keep exactly the active results, packed or not), keep_locks, locks_only, "
+     "failed_only(+cases), default_locks, cleanup_wf; bridge dispatch_matches: the store methods the real CleanupCommand calls for all 8 option combinations (re-extracted with a scripted store on every run) are the model's. "
+     "Correspondence: random store contents (active/foreign results, packed/loose, held/failed locks, temp files, six spellings of the jug directory) x four modes x file/file+compression/dict/dict+file/redis through the real "
+     "subcommand vs the model and vs the property; a store object opened before a concurrent `jug pack` must not undo it.",
+     "Modelled, not verified: os.walk / unlink; redis via the stand-in; the active set is task.alltasks of the loaded jugfile.",
+     "Lean 4 proof + kernel-checked extracted dispatch table + differential correspondence through the real subcommand")
+
 def main():
     checks, na = [], []
     ids = ['C%02d' % i for i in range(1, 21)]
